@@ -1,11 +1,11 @@
 \* a peer on another fork: the node's chain is still a verified chain of SOME peer (PrefixOfA not claimed)
 CONSTANTS HA = 2 HB = 3 ForkAt = 1 Start = 0 MaxIter = 3 WithCancel = TRUE
   Peers = {"honest", "fork", "other"}
-  Verify = TRUE Retry = TRUE CheckedStore = TRUE CtxAwareSends = TRUE
+  Verify = TRUE Retry = TRUE CheckedStore = TRUE CtxAwareSends = TRUE FieldsChecked = TRUE
   ClassOf <- MCIdentity EmptyA <- MCEmptyMix EmptyB <- MCEmptyB
 INIT Init
 NEXT Next
 VIEW view
-INVARIANTS TypeOK StoredIsChain OnlyVerified EmittedVerified NoSkip NoLeak ExitOnlyAfterCancel
+INVARIANTS TypeOK StoredIsChain OnlyVerified EmittedVerified NoSkip NoLeak ExitOnlyAfterCancel NoCrash
 PROPERTIES StoreExtends
 CHECK_DEADLOCK FALSE
